@@ -450,6 +450,10 @@ VERIF_MSGS = [
     ("postcondition not satisfied", "post"),
     ("precondition not satisfied", "pre"),
     ("assertion failed", "assert"),
+    ("post-condition of closure", "assert"),
+    ("pre-condition of closure", "pre"),
+    ("precondition of closure", "pre"),
+    ("postcondition of closure", "assert"),
     ("requires not satisfied", "assert"),
     ("invariant not satisfied", "inv"),
     ("possible arithmetic underflow/overflow", "arith"),
